@@ -17,6 +17,7 @@ def frame():
     return pandas.DataFrame({
         "a": [1.0, 2.0, 3.5, 4.0, 6.0], "b": [2.0, 1.0, 5.0, 3.0, 0.5], "c": [0.5, 0.25, 4.0, 1.0, 2.0], "y": [1.0, 0.0, 1.0, 1.0, 0.0],
         "A": pandas.Categorical(["u", "v", "u", "w", "v"]), "x y": [3.0, 1.0, 2.0, 5.0, 4.0], "x.1": [1.5, 2.5, 3.5, 4.5, 5.5],
+        "x_y": [0.5, 4.0, 1.0, 2.0, 3.0],  # a genuine column that looks like the sanitised alias of `x y`
     })
 
 
@@ -112,8 +113,8 @@ def check_sources():
 
 # ------------------------------------------------------------------------------------------------ generated formulas
 
-_NUM = ["a", "b", "c", "`x y`"]
-_COL = {"a": "a", "b": "b", "c": "c", "`x y`": "x y"}
+_NUM = ["a", "b", "c", "`x y`", "x_y", "`x y`"]
+_COL = {"a": "a", "b": "b", "c": "c", "`x y`": "x y", "x_y": "x_y"}
 
 
 def generated(seed: int, n: int):
